@@ -4,6 +4,7 @@
 package worlds
 
 import (
+	"os"
 	"fmt"
 	"sort"
 	"strings"
@@ -153,8 +154,16 @@ func (r *Run) NewSim(maxSteps int) *simrt.Sim {
 	r.Res.Strategy = int(strat)
 	r.Sim = simrt.New(simrt.Config{Sched: r.S, Aux: r.A, Strategy: strat, MaxSteps: maxSteps, Trace: r.Replay})
 	r.start = time.Now()
+	if yieldUnlockEnv {
+		r.Sim.YieldAfterUnlock = true
+	}
 	return r.Sim
 }
+
+// yieldUnlockEnv (VSIM_YIELD_UNLOCK=1) is an exploration knob: it makes every mutex release a
+// scheduling point in every scenario. No registered command sets it; a replay file recorded
+// with it replays only with it.
+var yieldUnlockEnv = os.Getenv("VSIM_YIELD_UNLOCK") == "1"
 
 // Pipe creates a simnet link with tape-chosen segmentation/window and registers it for teardown.
 func (r *Run) Pipe(nameA, nameB string, o simnet.Options) (*simnet.Conn, *simnet.Conn) {
